@@ -860,6 +860,11 @@ pub enum WireFault {
     JsonMember { key: String, value: Option<Value> },
     /// JSON envelope: the member appears twice in the text (second copy with `value`)
     JsonDupMember { key: String, value: Value },
+    /// the message as some transport or wrapper would carry it: a character percent-encoded
+    /// (`%65` for `e`), every `~` as `%7E` or `&#126;`, the whole message as a JSON string literal
+    /// (optionally with one character spelled `\uXXXX`), folded into 64-character lines,
+    /// surrounded by blanks / BOM / newline, base64 of the whole, `+`/`/` for `-`/`_`
+    Transport { kind: u8, pos: usize },
 }
 
 impl WireFault {
@@ -873,12 +878,61 @@ impl WireFault {
             WireFault::DupPart(_) => "dup_part",
             WireFault::JsonMember { .. } => "json_type_flip",
             WireFault::JsonDupMember { .. } => "json_duplicate_member",
+            WireFault::Transport { .. } => "transport_encoding",
         }
     }
 }
 
 pub fn apply_wire(f: &WireFault, s: &str) -> String {
     match f {
+        WireFault::Transport { kind, pos } => {
+            let cs: Vec<char> = s.chars().collect();
+            if cs.is_empty() {
+                return s.to_string();
+            }
+            let p = *pos % cs.len();
+            match kind % 10 {
+                0 => {
+                    // one character percent-encoded
+                    let mut out: String = cs[..p].iter().collect();
+                    let mut buf = [0u8; 4];
+                    for b in cs[p].encode_utf8(&mut buf).bytes() {
+                        out.push_str(&format!("%{:02X}", b));
+                    }
+                    out.extend(cs[p + 1..].iter());
+                    out
+                }
+                1 => s.replace('~', "%7E"),
+                2 => s.replace('~', "&#126;"),
+                3 => serde_json::to_string(s).unwrap_or_else(|_| s.to_string()),
+                4 => {
+                    let mut out = String::from("\"");
+                    for (i, c) in cs.iter().enumerate() {
+                        if i == p || *c == '"' || *c == '\\' || (*c as u32) < 0x20 {
+                            out.push_str(&format!("\\u{:04x}", *c as u32 & 0xffff));
+                        } else {
+                            out.push(*c);
+                        }
+                    }
+                    out.push('"');
+                    out
+                }
+                5 => cs.chunks(64).map(|c| c.iter().collect::<String>()).collect::<Vec<_>>().join("\n"),
+                6 => format!("{}{}{}", ["", " ", "\u{feff}", "\n", "\t"][p % 5], s, ["\n", " ", "", "\r\n", "\u{0}"][(p / 5) % 5]),
+                7 => crate::model::b64e(s.as_bytes()),
+                8 => s.replace('-', "+").replace('_', "/"),
+                _ => {
+                    // every character of the first segment percent-encoded
+                    let end = cs.iter().position(|c| *c == '.' || *c == '~' || *c == '"').unwrap_or(cs.len().min(8));
+                    let mut out = String::new();
+                    for c in &cs[..end] {
+                        out.push_str(&format!("%{:02X}", *c as u32 & 0xff));
+                    }
+                    out.extend(cs[end..].iter());
+                    out
+                }
+            }
+        }
         WireFault::Truncate(n) => s.chars().take(*n).collect(),
         WireFault::Garbage(g) => g.clone(),
         WireFault::InsertAt { pos, text } => {
